@@ -461,8 +461,11 @@ class SpooledStringIO(SpooledIOBase):
         return ret
 
     def readlines(self, sizehint=0):
-        ret = [x.decode('utf-8') for x in self.buffer.readlines(sizehint)]
-        self._tell = self.tell() + sum(len(x) for x in ret)
+        # like io.StringIO, lines end at '\n' only; read() advances tell()
+        ret = self.read().split('\n')
+        ret[:-1] = [x + '\n' for x in ret[:-1]]
+        if not ret[-1]:
+            ret.pop()
         return ret
 
     @property
